@@ -427,6 +427,7 @@ func specEarlyMS(availS, nowS, atoS float64) int {
 //@   ensures  phase: forall idx in [0, len(rep.Segments)) :: (int(rep.Segments[idx].StartTime) == int(time) - int(time)/wrapDurOf(a, rep)*wrapDurOf(a, rep) ==> (err == nil <==> phaseOf(a, rep, cfg, idx, int(time)/wrapDurOf(a, rep), nowMS) == phaseOK))
 //@   ensures  early: forall idx in [0, len(rep.Segments)) :: (int(rep.Segments[idx].StartTime) == int(time) - int(time)/wrapDurOf(a, rep)*wrapDurOf(a, rep) ==> (typeIs(err, errTooEarly{}) <==> phaseOf(a, rep, cfg, idx, int(time)/wrapDurOf(a, rep), nowMS) == phaseEarly))
 //@   ensures  gone: forall idx in [0, len(rep.Segments)) :: (int(rep.Segments[idx].StartTime) == int(time) - int(time)/wrapDurOf(a, rep)*wrapDurOf(a, rep) ==> (err == errGone <==> phaseOf(a, rep, cfg, idx, int(time)/wrapDurOf(a, rep), nowMS) == phaseGone))
+//@   ensures  nrOf: forall idx in [0, len(rep.Segments)) :: (int(rep.Segments[idx].StartTime) == int(time) - int(time)/wrapDurOf(a, rep)*wrapDurOf(a, rep) && err == nil ==> sm.newNr == uint32(specStartNr(cfg)+idx+int(time)/wrapDurOf(a, rep)*len(rep.Segments)))
 //@   ensures  miss: (forall idx in [0, len(rep.Segments)) :: int(rep.Segments[idx].StartTime) != int(time) - int(time)/wrapDurOf(a, rep)*wrapDurOf(a, rep)) ==> err != nil && !typeIs(err, errTooEarly{}) && err != errGone
 
 // lemmaWrapDurIsRepDur: the loop duration used by the code is the representation's duration.
@@ -911,6 +912,12 @@ func lemmaFloorMul(x, d int) {}
 //@   ensures  le: 1000*E <= M*ts <==> float64(E)/float64(ts) <= float64(M)/1000.0
 func lemmaTicksVsMs(E, ts, M int) {}
 
+// lemmaStartsDistinct: different VoD segments start at different times.
+//@ lemma lemmaStartsDistinct
+//@   requires wfRep(rep) && orderedRep(rep) && 0 <= i && i < len(rep.Segments) && 0 <= j && j < len(rep.Segments) && rep.Segments[i].StartTime == rep.Segments[j].StartTime
+//@   ensures  i == j
+func lemmaStartsDistinct(rep *RepData, i, j int) {}
+
 // lemmaSpecEndMono: segment ends grow with the segment number, also across loops.
 //@ lemma lemmaSpecEndMono
 //@   requires a != nil && wfRep(rep) && orderedRep(rep) && loopExact(a, rep) && rep.Segments[0].StartTime == 0 && 0 <= i && i <= j
@@ -1025,6 +1032,8 @@ func lemmaAfterEdgeIsEarly(a *asset, repID string, cfg *ResponseConfig, nowMS in
 	next := int(uint32(last+1+snr)) - snr // the number as the server counts it
 	assert(next == last+1)
 	eNext := specEnd(a, rep, next)
+	assert(nowTicks < specEnd(a, rep, last+1))
+	assert(eNext == specEnd(a, rep, last+1))
 	assert(nowTicks < eNext)
 	lemmaAfterIsEarly(nowTicks, eNext, S, ts, nowMS, atoMS)
 	lemmaPhaseFromTicks(a, rep, cfg, nowMS, next, atoMS)
@@ -1062,6 +1071,7 @@ func lemmaListedIsServed(a *asset, repID string, cfg *ResponseConfig, nowMS, k i
 	kk := int(uint32(k+snr)) - snr // the number as the server counts it
 	assert(kk == k)
 	eK := specEnd(a, rep, kk)
+	assert(eK == specEnd(a, rep, k))
 	eLast := specEnd(a, rep, last)
 	assert(eLast <= nowTicks)
 	lemmaSpecEndMono(a, rep, kk, last)
@@ -1088,6 +1098,25 @@ func lemmaListedIsServed(a *asset, repID string, cfg *ResponseConfig, nowMS, k i
 	lemmaPhaseFromTicks(a, rep, cfg, nowMS, kk, atoMS)
 	_, errK := findSegMetaFromNr(a, rep, uint32(k+snr), cfg, nowMS)
 	assert(errK == nil)
+
+	// the same segment addressed by $Time$: the start time the timeline gives it is accepted,
+	// available, and is that number
+	N := len(rep.Segments)
+	w := kk / N
+	idx := kk % N
+	assert(int(rep.Segments[idx].StartTime) < W)
+	lemmaDivMul(w, int(rep.Segments[idx].StartTime), W)
+	lemmaMulMono(nowMS-1000*S+atoMS, 9000000000000, ts)
+	assert(specStart(a, rep, kk) <= eK && eK <= 90000000000000000)
+	t := uint64(specStart(a, rep, kk))
+	assert(int(t)/W == w && int(t)-int(t)/W*W == int(rep.Segments[idx].StartTime))
+	assert(phaseOf(a, rep, cfg, idx, int(t)/W, nowMS) == phaseOK)
+	smT, errT := findSegMetaFromTime(a, rep, t, cfg, nowMS)
+	assert(errT == nil)
+	assert(idx+w*N == kk)
+	assert(smT.newNr == uint32(snr+idx+int(t)/W*N))
+	assert(snr+idx+int(t)/W*N == k+snr)
+	assert(int(smT.newNr) == k+snr)
 }
 
 // twoWindows: two request instants, now1 <= now2, under one configuration (C05).
